@@ -329,6 +329,14 @@ def render_fn(F, fc, profile, vacuity=False, all_units=None):
     # rule 1: doc comments inside the item
     text = "\n".join(l for l in text.split("\n") if not l.strip().startswith("///"))
     for old, new in fc.rewrites:
+        if old.startswith("re:"):
+            # pattern form (still one of the rules listed in DESIGN 2.3): must match exactly once
+            rx = re.compile(old[3:])
+            k = len(rx.findall(text))
+            if k != 1:
+                raise SpliceError("lost anchor: rewrite pattern %r matches %d time(s) in %s" % (old[3:], k, fc.name))
+            text = rx.sub(new, text)
+            continue
         if text.count(old) != 1:
             raise SpliceError("lost anchor: rewrite target %r occurs %d time(s) in %s" % (old, text.count(old), fc.name))
         text = text.replace(old, new)
